@@ -6,6 +6,7 @@ The parser can be invoked standalone:
     python -m odml.tools.xmlparser file.odml
 """
 import csv
+import io
 import sys
 
 from os.path import basename
@@ -291,6 +292,14 @@ class XMLReader(object):
         :param xml_file: file path to an XML input file or file like object.
         :returns: a parsed odml.Document.
         """
+        if isinstance(xml_file, io.TextIOBase):
+            # A text stream delivers decoded text, which lxml refuses as soon as it
+            # starts with an encoding declaration (the content of every saved file).
+            # The string entry point treats the declaration of decoded text as void.
+            text = xml_file.read()
+            xml_file.close()
+            return self.from_string(text)
+
         try:
             root = ET.parse(xml_file, self.parser).getroot()
             if hasattr(xml_file, "close"):
